@@ -50,6 +50,7 @@ def main():
     mod = importlib.import_module("vp.props.%s" % prop.lower())
     # safety net: a check must terminate.  Hangs of the code under test are caught per call (SIGALRM in the
     # harness); this watchdog only fires if the machinery itself is stuck (e.g. a dead pool worker).
+    core.tree_lock()      # before the watchdog: waiting for a run on another tree is not a stuck check
     import threading
     limit = int(os.environ.get("VERIF_WATCHDOG_S", "1800" if tier == "quick" else "14400"))
 
